@@ -55,7 +55,7 @@ class HeterogeneousModel(Model):
         self.masks = darsia.Masks(labels)
         self.obj = {}
         for label in self.masks.unique_labels:
-            self.obj[label] = copy.copy(obj)
+            self.obj[label] = copy.deepcopy(obj)
 
     def __call__(self, signal: np.ndarray) -> np.ndarray:
         output = np.zeros(signal.shape[:2])  # TODO shape?
